@@ -130,6 +130,23 @@ fn main() {
             println!("rtasim: exit {}", code);
             std::process::exit(code);
         }
+        "debug-coincidence" => {
+            // bounds of the first N "late coincidence" task sets (differential debugging aid)
+            let n: u64 = args.get(2).and_then(|v| v.parse().ok()).unwrap_or(100);
+            let seed: u64 = args.get(3).and_then(|v| v.parse().ok()).unwrap_or(1);
+            for k in 0..n {
+                let mut rng = rng::Rng::new(rng::Rng::run_seed(seed, "debug-coincidence", k));
+                let ts = gen::coincidence_taskset(&mut rng);
+                let prep = unisched::prepare(&ts);
+                let l = prep.as_ref().and_then(|p| p.l_obs);
+                let mut line = format!("{} l_obs={:?}", k, l);
+                for v in [uni::Variant::Fifo, uni::Variant::FpNp, uni::Variant::FpP, uni::Variant::EdfNp] {
+                    let o = analysis::analyse_all(&ts, v, 0);
+                    line.push_str(&format!(" {}={:?}", v, o));
+                }
+                println!("{}", line);
+            }
+        }
         "debug-tight" => {
             let text = std::fs::read_to_string(&args[2]).unwrap();
             unicheck::debug_tight(&text);
